@@ -92,6 +92,8 @@ def extract(F):
     fn = F.fn(EXEC)
     if fn is None:
         raise TemplateError("function %s not found" % EXEC)
+    # private same-file helpers are spliced in, except the machine operations themselves (the rule's vocabulary)
+    fn = F.inlined(fn, tuple(MACHINE_OPS) + ("visit_node", "exec_with_tracker", "pad_left", "pad_right", "bit_width"))
     sb, si, ip, inner_local = find_ip(fn)
     T = Terms(fn, opaque={ip: "ip"})
     place, adt, targets, otherwise, rest = si
